@@ -165,7 +165,7 @@ pub fn run(ctx: &mut Ctx) {
     assert_eq!(b64(b"any carnal pleasu"), "YW55IGNhcm5hbCBwbGVhc3U=");
 
     let miri = ctx.mode == "miri";
-    let total = if miri { 24 } else { ctx.size(8_000, 120_000) };
+    let total = if miri { 16 } else { ctx.size(8_000, 120_000) };
     for n in ctx.cases("docs", total) {
         let mut rng = ctx.begin("docs", n);
         let cfg = DocCfg { max_lines: *rng.pick(&[1, 3, 6]), max_segs: *rng.pick(&[2, 5]), big: rng.chance(1, 5), allow_header: false, ..DocCfg::default() };
